@@ -365,7 +365,12 @@ def run(ctx: core.Ctx):
         "the macro's scope (a default may read an earlier parameter; a later one is still undefined)",
         "CALIBRATED: `set ns.x = e` checks that ns is a namespace before evaluating e",
         "CALIBRATED: a macro accepts a call block iff `caller` is mentioned anywhere inside its body (nested macros included)",
-        "endless macro recursion is expected to end in RecursionError (model: call depth > 40)",
+        "CALIBRATED: macro call errors - too many positional arguments, an unknown keyword argument, or a call block "
+        "for a macro that never mentions caller - raise TypeError; calling a macro that mentions caller without a "
+        "call block gives an undefined caller (UndefinedError when called)",
+        "arithmetic follows Python: str + 1 raises TypeError, True + 1 == 2; `x.c` on a non-tree value is undefined and "
+        "iterating undefined yields nothing",
+        "endless macro / loop recursion is expected to end in RecursionError (model: call depth > 40)",
         "break/continue are generated only at loop-body level (directly or inside if), never inside nested scopes of the loop body",
         "programs of alphabets closed under permuting the pool are represented by the member whose variables first occur in pool order",
     ]
